@@ -53,6 +53,7 @@ type Opts struct {
 	KeepBackup  int    // default 2
 	KeepDir     bool   // Stop() leaves the directory
 	TickMs      int    // default 20
+	Host        []int  // partitions of the namespace hosted by this node (nil = all)
 }
 
 // Start a single-node server with `parts` partitions of namespace "default" (replicator 1).
@@ -94,7 +95,21 @@ func StartWith(o Opts) (*Node, error) {
 	}
 	var replica node.ReplicaInfo
 	replica.NodeID, replica.ReplicaID, replica.RaftAddr = 1, 1, raftAddr
+	hosted := func(i int) bool {
+		if o.Host == nil {
+			return true
+		}
+		for _, h := range o.Host {
+			if h == i {
+				return true
+			}
+		}
+		return false
+	}
 	for i := 0; i < parts; i++ {
+		if !hosted(i) {
+			continue
+		}
 		ns := node.NewNSConfig()
 		ns.Name = NS + "-" + strconv.Itoa(i)
 		ns.BaseName = NS
@@ -116,6 +131,10 @@ func StartWith(o Opts) (*Node, error) {
 	for {
 		ready := 0
 		for i := 0; i < parts; i++ {
+			if !hosted(i) {
+				ready++
+				continue
+			}
 			nn := srv.GetNamespaceFromFullName(NS + "-" + strconv.Itoa(i))
 			if nn != nil && nn.Node.IsLead() && nn.IsReady() && nn.IsNsNodeFullReady(true) {
 				ready++
